@@ -171,6 +171,7 @@ func (i *iteratorRole) ProcessTemplates(workflowRepo repos.IRepo, loadSubworkflo
 		wg.Add(len(i.Roles))
 
 		var roleErrors *multierror.Error
+		var roleErrorsMu sync.Mutex
 
 		// Process templates for child roles
 		for roleIdx := range i.Roles {
@@ -178,10 +179,12 @@ func (i *iteratorRole) ProcessTemplates(workflowRepo repos.IRepo, loadSubworkflo
 				defer wg.Done()
 				verifhook.Point("wl.iter.child.start", "iter", i, "idx", roleIdx, "n", len(i.Roles))
 				role := i.Roles[roleIdx]
-				err = role.ProcessTemplates(workflowRepo, loadSubworkflow, baseConfigStack)
+				err := role.ProcessTemplates(workflowRepo, loadSubworkflow, baseConfigStack) // goroutine-local: must not share the enclosing err
 				verifhook.Point("wl.iter.child.done", "iter", i, "idx", roleIdx, "n", len(i.Roles))
 				if err != nil {
+					roleErrorsMu.Lock()
 					roleErrors = multierror.Append(roleErrors, err)
+					roleErrorsMu.Unlock()
 				}
 			}(roleIdx)
 		}
@@ -239,6 +242,7 @@ func (i *iteratorRole) expandTemplate() (err error) {
 		wg.Add(len(ran))
 
 		var roleErrors *multierror.Error
+		var roleErrorsMu sync.Mutex
 		roles = make([]Role, len(ran))
 
 		for rangeIdx := range ran {
@@ -248,10 +252,11 @@ func (i *iteratorRole) expandTemplate() (err error) {
 				localValue := ran[rangeIdx]
 				locals := make(map[string]string)
 				locals[i.For.GetVar()] = localValue
-				var newRole Role
-				newRole, err = i.template.generateRole(locals)
+				newRole, err := i.template.generateRole(locals) // goroutine-local err
 				if err != nil {
+					roleErrorsMu.Lock()
 					roleErrors = multierror.Append(roleErrors, err)
+					roleErrorsMu.Unlock()
 					return
 				}
 				roles[rangeIdx] = newRole
